@@ -25,6 +25,14 @@ package main
 //
 // Correspondence: the projected result of every operation against the Coq
 // model C21.Run.rc (hash labels = rank of the hash bytes, heights as numbers).
+//
+// Concurrent stage (conc.go): the same property when the operations overlap.
+// The store runs over a gated database; a scheduler makes the interleavings
+// (all ordered pairs of operations x every gate position x cache temperature,
+// and seeded random mixes of 2-4 goroutines); after everything has returned
+// every getter is compared with the fresh read; a panic or an operation that
+// never returns is an oracle failure too.  Its cases are also cases of the
+// protocol model C21/Conc.v (cases_conc_*.v).
 
 import (
 	"bytes"
@@ -1002,9 +1010,12 @@ func sizeClass(n int) string {
 
 func runC21(c *Ctx) error {
 	logrus.SetLevel(logrus.PanicLevel) // the store logs every save
-	c.Stats.Rule = "a case counts as non-trivial when a block header, main-chain height or checkpoint that had been read through the store was overwritten later in the same history, or one checkpoint was read more than once; distinct by the full case (universe, capacities, history)"
+	c.Stats.Rule = "a case counts as non-trivial when a block header, main-chain height or checkpoint that had been read through the store was overwritten later in the same history, or one checkpoint was read more than once; distinct by the full case (universe, capacities, history); a case of the concurrent stage counts as non-trivial when a database call on a key ran while another goroutine was inside a database call on the same key, or an operation had to wait inside the store for another one (singleflight); distinct by operations, cache temperature and schedule"
 	c.Cases.Shard = 150
 	n := c.N(900, 6000)
+	if os.Getenv("C21_STAGE") == "conc" { // development aid: only the concurrent stage
+		n = 0
+	}
 	for i := 0; i < n; i++ {
 		g := genUniverse(c.Rng, c)
 		g.genOps(c.Rng, c)
@@ -1048,8 +1059,13 @@ func runC21(c *Ctx) error {
 			c.Stats.Sample(d)
 		}
 	}
+	runConcurrentStage(c)
 	header := "From Coq Require Import List NArith Bool.\nFrom Verif Require Import Cmp.\nFrom C21 Require Import Model Run.\nImport ListNotations."
-	return c.Cases.Write(c.Out, header, "cres", "cres_eqb")
+	if err := c.Cases.Write(c.Out, header, "cres", "cres_eqb"); err != nil {
+		return err
+	}
+	concHeader := "From Coq Require Import List NArith Bool.\nFrom C21 Require Import Conc.\nImport ListNotations.\nLocal Open Scope N_scope."
+	return concCases.WriteNamed(c.Out, "conc", concHeader, "list N", "nlist_eqb")
 }
 
 func min(a, b int) int {
